@@ -32,6 +32,28 @@ pub fn run(r: &mut Report) {
     let p3 = format!("{}/c/", root);
     let got = no_panic(|| record_artifacts(&[sub.to_str().unwrap(), d.path().join("c").to_str().unwrap()], None, Some(&[p2.as_str(), p3.as_str()])));
     r.case("duplicate-key-is-an-error", json!({"files": ["a/b/x", "c/x"], "strip": ["a/b/", "c/"]}), "Err", format!("{:?}", got.as_ref().map(|x| x.as_ref().map(|m| m.len()).map_err(|e| e.to_string()))), matches!(&got, Ok(Err(_))));
+    // two files that would receive the same key are an error whatever they are and hold: regular files or links to files, equal or
+    // different content, whichever is met first
+    {
+        use std::os::unix::fs::symlink;
+        for (kind_a, kind_b, same_content) in [("file", "file", true), ("file", "file", false), ("file", "link", true), ("file", "link", false), ("link", "file", true), ("link", "link", true)] {
+            for (da, db) in [("a", "c"), ("c", "a")] {
+                let t = crate::fixture::tmpdir();
+                std::fs::write(t.path().join("store-1"), b"same").unwrap();
+                std::fs::write(t.path().join("store-2"), if same_content { b"same".to_vec() } else { b"other".to_vec() }).unwrap();
+                for (dir, kind, store) in [(da, kind_a, "store-1"), (db, kind_b, "store-2")] {
+                    std::fs::create_dir_all(t.path().join(dir)).unwrap();
+                    if kind == "file" { std::fs::copy(t.path().join(store), t.path().join(dir).join("x")).unwrap(); } else { symlink(t.path().join(store), t.path().join(dir).join("x")).unwrap(); }
+                }
+                let root = t.path().to_str().unwrap().to_string();
+                let (pa, pc) = (format!("{}/a/", root), format!("{}/c/", root));
+                let (aa, ac) = (format!("{}/a", root), format!("{}/c", root));
+                let got = no_panic(|| record_artifacts(&[aa.as_str(), ac.as_str()], None, Some(&[pa.as_str(), pc.as_str()])));
+                r.case("same-key-is-an-error-whatever-the-files-are", json!({"first": format!("{}/x: {}", da, kind_a), "second": format!("{}/x: {}", db, kind_b), "same_content": same_content}), "Err",
+                       format!("{:?}", got.as_ref().map(|x| x.as_ref().map(|m| m.keys().map(|k| k.value().to_string()).collect::<Vec<_>>()).map_err(|e| e.to_string().chars().take(60).collect::<String>()))), matches!(&got, Ok(Err(_))));
+            }
+        }
+    }
     // the chosen strip prefix is removed ONCE, from the front: directories nested in a directory of the same name keep their inner
     // components (oracle: the path text minus the longest given prefix it starts with)
     {
